@@ -6,6 +6,9 @@ C15.a (removal clause, complete over call paths): for every public entry point m
   `config.append_only == Some(true)` whose true edge only returns Err, and s (or the call leading to it) is
   unreachable in that frame when the test is true - decided by path-sensitive reachability that keeps bool tests
   on immutable option fields consistent (so `opts.delete && append_only` protects a site under `if opts.delete`).
+  The test is recognised semantically (value of the switch when the field is Some(true)): `== Some(true)`, `if let
+  Some(true)`, `matches!`, `unwrap_or(false)`, a bool predicate method of the field, and Result-returning guard helpers
+  used with `?` (functions whose every return is Err once the field is forced) - see compute_ao_helpers.
 C15.a2 fails-before-touching-storage: no W/RM/CREATE effect can precede a guard in its frame.
 C15.c dry-run: with every `dry_run` flag assumed true, no W/RM/CREATE effect is reachable from any function that
   reads a dry_run flag; flags are wired: every struct field named dry_run is initialised from a dry_run source.
